@@ -5,7 +5,7 @@ from vlib import core
 THEOREMS = ["Props.C17." + t for t in [
     "generated_cfg_is_std", "writer_plain", "type_annotation_escaped_once", "literal_roundtrip", "literal_roundtrip_parsed",
     "literal_roundtrip_iff_safe_witnesses", "annotation_roundtrip", "annotation_text_roundtrip", "numeric_roundtrip_int",
-    "numeric_roundtrip_double", "constvalue_roundtrip", "dump_parse_partial", "dump_accepted_partial"]]
+    "numeric_roundtrip_double", "constvalue_roundtrip", "dump_parse_partial", "dump_accepted_partial", "tree_dump_exactly_once", "tree_dump_break_witness"]]
 
 PARTIAL = [
     "dump_parse_partial: composed by theorem for constant values (all six kinds, nested), annotation lists, literals and numbers; "
